@@ -104,6 +104,42 @@ def drop_unreachable(spec):
     return s
 
 
+def clean_incompat(spec):
+    """Keep only incompatibility pairs between option nodes whose unconditional consequences (derivation edges and forced
+    single-option choices) neither contain each other's end nor anything that is always present: no node contradicts
+    itself and no conflict is forced (those degenerate shapes are the subject of the C06 / C02 checks)."""
+    from simkit.ref_sem import Spec
+    so = Spec(spec)
+
+    def forced(n0):
+        seen, todo = set(), [n0]
+        while todo:
+            x = todo.pop()
+            if x in seen:
+                continue
+            seen.add(x)
+            todo.extend(so.derive.get(x, []))
+            for cid in so.sel_by_origin.get(x, []):
+                if len(so.sel[cid][1]) == 1:
+                    todo.extend(so.sel[cid][1])
+        return seen
+
+    always = set()
+    for st in spec['start']:
+        always |= forced(st)
+    opts = {o for c in spec['sel'] for o in c[2]}
+    derived_targets = {t for (_, t) in map(tuple, spec['derive'])}
+    keep = []
+    for a, b in spec['incompat']:
+        fa, fb = forced(a), forced(b)
+        if a in opts and b in opts and a not in always and b not in always and not (fa & fb) \
+                and a not in derived_targets and b not in derived_targets:
+            keep.append([a, b])
+    s2 = copy.deepcopy(spec)
+    s2['incompat'] = keep
+    return s2
+
+
 def has_unreachable(spec):
     from simkit.ref_sem import Spec
     u = Spec(spec).reachable_universe()
